@@ -100,6 +100,15 @@ fn c10_put_step() {
     }
     check_views_agree(store, "mid");
     if n_held >= cap && incoming_is_new && res.is_err() {
+        // a refused record is not held: it must not be readable, and offering the very same bytes again is
+        // refused again (it must not be answered "already have it" without anything having been stored)
+        let got = w.driver.store().get(&k_in).map(|c| c.into_owned().value);
+        check_bool("at_capacity:refused_record_is_not_readable", got.is_none());
+        let res1 = w.driver.arm_put_local_record(chunk_record(&k_in, 1));
+        cover("reoffered_same_bytes_after_refusal");
+        check_bool("at_capacity:reoffer_of_refused_bytes_is_refused_again", res1.is_err());
+        check_bool("at_capacity:reoffer_of_refused_bytes_leaves_set_unchanged", held_set(w.driver.node_store()) == before);
+        check_bool("at_capacity:reoffer_of_refused_bytes_starts_no_write", w.in_flight() == 0);
         // the refused record is offered again with other content (a newer version of it): it is still farther
         // than everything held, so it is refused again and nothing changes
         let res2 = w.driver.arm_put_local_record(chunk_record(&k_in, 2));
